@@ -1,6 +1,10 @@
 package main
 
-import "bytes"
+import (
+	"bytes"
+
+	istorage "github.com/nspcc-dev/neo-go/pkg/core/interop/storage"
+)
 
 // Hand-written cases, run first (cases 0..n) on the listed backends.
 type corpusCase struct {
@@ -39,6 +43,13 @@ var corpusCases = []corpusCase{
 			r.opSeekAsync(2, seekRange{pfx: P, cut: true, bw: bw})
 			r.opSeekAsync(2, seekRange{pfx: cat(P, P), cut: true, bw: bw})
 			r.opDaoSeek(2, seekRange{pfx: P, bw: bw}, true)
+			for _, opts := range []int64{0, istorage.FindRemovePrefix, istorage.FindKeysOnly, istorage.FindValuesOnly} {
+				if bw {
+					opts |= istorage.FindBackwards
+				}
+				r.opFind(2, nil, opts, 0)
+				r.opFind(2, P, opts, 0)
+			}
 		}
 		r.o.Count("corpus:cutprefix")
 	}},
